@@ -9,19 +9,33 @@ import (
 
 // Bubble runs f as the root goroutine of a testing/synctest bubble, so that
 // time.Now/Sleep/Timer inside the code under test read the simulated clock.
-// The "blocked goroutines remain" panic raised at the end of a bubble is
-// recovered and returned as leak != "" (classified by the caller).
+//
+// synctest.Test is called on a goroutine of its own: when the race detector
+// fires inside the bubble the testing package marks the bubble's test as failed
+// and synctest.Test then calls t.FailNow, i.e. runtime.Goexit, which must not
+// take the worker loop down with it. The "blocked goroutines remain" panic raised
+// at the end of a bubble is recovered and returned as leak != "" (classified by
+// the caller).
 func Bubble(t *testing.T, f func()) (leak string) {
-	defer func() {
-		if r := recover(); r != nil {
-			msg := fmt.Sprint(r)
-			if strings.Contains(msg, "deadlock") || strings.Contains(msg, "blocked goroutines") {
-				leak = msg
-				return
+	done := make(chan string, 1)
+	go func() {
+		res := ""
+		defer func() {
+			if r := recover(); r != nil {
+				msg := fmt.Sprint(r)
+				if strings.Contains(msg, "deadlock") || strings.Contains(msg, "blocked goroutines") {
+					res = msg
+				} else {
+					res = "PANIC: " + msg
+				}
 			}
-			panic(r)
-		}
+			done <- res
+		}()
+		synctest.Test(t, func(*testing.T) { f() })
 	}()
-	synctest.Test(t, func(*testing.T) { f() })
-	return ""
+	leak = <-done
+	if strings.HasPrefix(leak, "PANIC: ") {
+		panic(leak)
+	}
+	return leak
 }
